@@ -376,6 +376,7 @@ func TestVerifC20PathPairs(t *testing.T) {
 	rec := kit.R("TestVerifC20PathPairs")
 	t.Cleanup(kit.Flush)
 	t.Cleanup(func() { c20KillLeakedHooks() })
+	c20CalibratePathLevel(t) // the log records this test observes through are still emitted (c20_calibrate_test.go)
 
 	rapid.Check(t, func(t *rapid.T) {
 		// ---- configuration of the case
